@@ -12,8 +12,11 @@ import (
 	"flag"
 	"fmt"
 	"os"
+	"os/exec"
+	"path/filepath"
 	"sort"
 	"strconv"
+	"strings"
 	"time"
 
 	"govc/internal/bounded"
@@ -73,6 +76,10 @@ func main() {
 		}
 		b, _ := json.Marshal(info)
 		fmt.Fprintln(os.Stderr, string(b))
+	case "mutants":
+		os.Exit(runMutants(os.Args[2:]))
+	case "check":
+		os.Exit(runCheck(os.Args[2:]))
 	case "run":
 		fs := flag.NewFlagSet("run", flag.ExitOnError)
 		selFile := fs.String("sel", "", "selection JSON file (default: claims/<PROP>.json engines.bounded)")
@@ -164,4 +171,264 @@ func main() {
 			os.Exit(1)
 		}
 	}
+}
+
+// ---------------------------------------------------------------- mutants
+
+type mutant struct {
+	Name   string          `json:"name"`
+	File   string          `json:"file"`
+	Old    string          `json:"old"`
+	New    string          `json:"new"`
+	Nth    int             `json:"nth"` // 0: the text must be unique; k > 0: replace the k-th occurrence
+	Sel    json.RawMessage `json:"sel"`
+	Expect []string        `json:"expect"`
+}
+
+// runMutants applies each mutant of testdata/mutants.json to a scratch copy of
+// the repository and checks that the engine reports a violation of one of the
+// expected relations with a CONFIRMED replay, and no unconfirmed counterexample.
+func runMutants(args []string) int {
+	fs := flag.NewFlagSet("mutants", flag.ExitOnError)
+	file := fs.String("file", "", "mutants.json (default: <verif>/govc/internal/bounded/testdata/mutants.json)")
+	only := fs.String("only", "", "comma separated mutant names")
+	scratch := fs.String("scratch", "/tmp/bounded-scratch", "scratch directory for the copies")
+	fs.Parse(args)
+	base := core.EnvFromOS("mutants-dev")
+	if *file == "" {
+		*file = filepath.Join(base.Verif, "govc/internal/bounded/testdata/mutants.json")
+	}
+	b, err := os.ReadFile(*file)
+	if err != nil {
+		fmt.Fprintln(os.Stderr, err)
+		return 2
+	}
+	var ms []mutant
+	if err := json.Unmarshal(b, &ms); err != nil {
+		fmt.Fprintln(os.Stderr, err)
+		return 2
+	}
+	bad := 0
+	for _, m := range ms {
+		if *only != "" && !strings.Contains(","+*only+",", ","+m.Name+",") {
+			continue
+		}
+		t0 := time.Now()
+		dir := filepath.Join(*scratch, "mut-"+m.Name)
+		os.RemoveAll(dir)
+		os.MkdirAll(dir, 0o755)
+		if out, err := exec.Command("sh", "-c", fmt.Sprintf("cp %s/*.go %s/go.mod %s/ && (cp %s/go.sum %s/ 2>/dev/null || true)", base.Repo, base.Repo, dir, base.Repo, dir)).CombinedOutput(); err != nil {
+			fmt.Println(m.Name, "copy failed:", string(out))
+			return 2
+		}
+		src, _ := os.ReadFile(filepath.Join(dir, m.File))
+		text := string(src)
+		cnt := strings.Count(text, m.Old)
+		switch {
+		case cnt == 0:
+			fmt.Printf("%-34s MUTATION DOES NOT APPLY (text not found in %s)\n", m.Name, m.File)
+			bad++
+			continue
+		case m.Nth == 0 && cnt != 1:
+			fmt.Printf("%-34s MUTATION AMBIGUOUS (%d occurrences in %s)\n", m.Name, cnt, m.File)
+			bad++
+			continue
+		}
+		k := m.Nth
+		if k == 0 {
+			k = 1
+		}
+		idx := -1
+		for i := 0; i < k; i++ {
+			j := strings.Index(text[idx+1:], m.Old)
+			if j < 0 {
+				idx = -1
+				break
+			}
+			idx += 1 + j
+		}
+		if idx < 0 {
+			fmt.Printf("%-34s MUTATION DOES NOT APPLY (occurrence %d)\n", m.Name, k)
+			bad++
+			continue
+		}
+		text = text[:idx] + m.New + text[idx+len(m.Old):]
+		os.WriteFile(filepath.Join(dir, m.File), []byte(text), 0o644)
+		env := core.EnvFromOS("mut-" + m.Name)
+		env.SetTier("quick")
+		env.Repo = dir
+		if os.Getenv("VERIF_WORKERS") == "" {
+			env.Workers = 16
+		}
+		os.RemoveAll(env.Work)
+		os.MkdirAll(env.Work, 0o755)
+		p, err := load.Load(dir)
+		if err != nil {
+			fmt.Printf("%-34s MUTANT DOES NOT BUILD: %v\n", m.Name, err)
+			bad++
+			os.RemoveAll(dir)
+			continue
+		}
+		res, err := bounded.Run(env, p, "mut-"+m.Name, m.Sel)
+		os.RemoveAll(env.Work)
+		if err != nil {
+			fmt.Printf("%-34s ENGINE ERROR: %v\n", m.Name, err)
+			bad++
+			os.RemoveAll(dir)
+			continue
+		}
+		byRel := map[string][2]int{}
+		unconf := 0
+		var firstUn *core.Obl
+		var sample *core.Obl
+		for _, o := range res.Obls {
+			if o.Status == core.Discharged {
+				continue
+			}
+			rel := strings.TrimPrefix(o.Kind, "bounded:")
+			c := byRel[rel]
+			if o.Replay != nil && o.Replay.Confirmed {
+				c[0]++
+				if sample == nil {
+					sample = o
+				}
+			} else {
+				c[1]++
+				unconf++
+				if firstUn == nil {
+					firstUn = o
+				}
+			}
+			byRel[rel] = c
+		}
+		detected := false
+		for _, e := range m.Expect {
+			if byRel[e][0] > 0 {
+				detected = true
+			}
+		}
+		var rels []string
+		for r, c := range byRel {
+			rels = append(rels, fmt.Sprintf("%s:%d+%d", r, c[0], c[1]))
+		}
+		sort.Strings(rels)
+		verdict := "DETECTED"
+		if !detected {
+			verdict = "NOT DETECTED"
+			bad++
+		}
+		fmt.Printf("%-34s %-12s %5.1fs  confirmed+unconfirmed per relation: %s\n", m.Name, verdict, time.Since(t0).Seconds(), strings.Join(rels, " "))
+		if sample != nil {
+			fmt.Printf("    e.g. %s\n         %s\n", sample.Name, trunc(sample.Witness, 300))
+			// the single-obligation Replay entry point must reproduce it
+			sample.Replay = nil
+			bounded.Replay(env, p, "mut-"+m.Name, sample)
+			if sample.Replay == nil || !sample.Replay.Confirmed {
+				fmt.Printf("    SINGLE REPLAY DID NOT CONFIRM: %+v\n", sample.Replay)
+				bad++
+			}
+		}
+		if firstUn != nil {
+			out := firstUn.Output
+			if firstUn.Replay != nil {
+				out = firstUn.Replay.Output
+			}
+			fmt.Printf("    unconfirmed e.g. %s [%s]\n         %s\n         %s\n", firstUn.Name, firstUn.Status, trunc(firstUn.Detail, 200), trunc(out, 300))
+		}
+		os.RemoveAll(dir)
+		os.RemoveAll(filepath.Join(env.Verif, "replays", "mut-"+m.Name))
+	}
+	if bad > 0 {
+		fmt.Printf("%d problems\n", bad)
+		return 1
+	}
+	return 0
+}
+
+func trunc(s string, n int) string {
+	if len(s) > n {
+		return s[:n] + "…"
+	}
+	return s
+}
+
+// runCheck mimics `govc check <PROP>` with the bounded engine only (the real
+// registration is done by the lead): claims matching, verdict lines, evidence.
+func runCheck(args []string) int {
+	if len(args) < 1 {
+		fmt.Fprintln(os.Stderr, "usage: bounded-dev check <PROP> [-tier t]")
+		return 2
+	}
+	prop := args[0]
+	fs := flag.NewFlagSet("check", flag.ExitOnError)
+	tier := fs.String("tier", "quick", "tier")
+	fs.Parse(args[1:])
+	env := core.EnvFromOS(prop)
+	env.SetTier(*tier)
+	if os.Getenv("VERIF_WORKERS") == "" {
+		env.Workers = 16
+	}
+	t0 := time.Now()
+	cf, err := core.LoadClaims(env.Verif, prop)
+	if err != nil {
+		fmt.Fprintln(os.Stderr, "no claims:", err)
+		return 2
+	}
+	sel, ok := cf.Engines["bounded"]
+	if !ok {
+		fmt.Fprintln(os.Stderr, "claims file has no bounded engine section")
+		return 2
+	}
+	// only the claims of this engine
+	var mine []core.Claim
+	for _, c := range cf.Claims {
+		if strings.HasPrefix(c.Match, "bnd/") {
+			mine = append(mine, c)
+		}
+	}
+	cf.Claims = mine
+	os.RemoveAll(env.Work)
+	os.MkdirAll(env.Work, 0o755)
+	defer os.RemoveAll(env.Work)
+	os.RemoveAll(filepath.Join(env.Verif, "replays", prop))
+	p, err := load.Load(env.Repo)
+	if err != nil {
+		fmt.Fprintln(os.Stderr, "load:", err)
+		return 2
+	}
+	res, err := bounded.Run(env, p, prop, sel)
+	if err != nil {
+		fmt.Fprintln(os.Stderr, "engine:", err)
+		return 2
+	}
+	tEngine := time.Since(t0)
+	v := core.Decide(env, cf, res, func(o *core.Obl) { bounded.Replay(env, p, prop, o) })
+	if os.Getenv("BOUNDED_DEV_EVIDENCE") != "" {
+		if err := core.WriteEvidence(env, cf, res, v, time.Since(t0), "bounded-dev check "+prop); err != nil {
+			fmt.Fprintln(os.Stderr, "evidence:", err)
+		}
+	}
+	nd := 0
+	for _, o := range v.Claimed {
+		if o.Status == core.Discharged {
+			nd++
+		}
+	}
+	fmt.Printf("property %s tier %s: %d obligations generated, %d claimed, %d of the claimed discharged, %d unclaimed; engine %.1fs, total %.1fs\n",
+		prop, env.Tier, len(res.Obls), len(v.Claimed), nd, len(v.Unclaimed), tEngine.Seconds(), time.Since(t0).Seconds())
+	b, _ := json.Marshal(res.Extra["bounded"])
+	fmt.Println(string(b))
+	max := 12
+	for i, l := range v.Lines {
+		if i < max {
+			fmt.Println(trunc(l, 600))
+		}
+	}
+	if len(v.Lines) > max {
+		fmt.Printf("... %d more lines\n", len(v.Lines)-max)
+	}
+	if v.ExitCode == 0 {
+		fmt.Println("OK property=" + prop)
+	}
+	return v.ExitCode
 }
